@@ -27,11 +27,14 @@ type GuardSpec struct {
 	Lock    string   // pkg.Type.lockfield
 	Props   []string
 	Holders map[string]bool // functions whose callers hold the lock
+	Released bool           // clause `released T.lock`: every Lock is released before the function returns
+	Observer string         // clause `unlocked F by T.lock nonzero-for G, H`: F reads guarded state without the lock
+	NonZero  map[string]bool // functions that may act, under the lock, on "F() != 0" (stable for them)
 	Except  map[string]bool // functions exempt from the discipline (argued separately in the contract file)
 	Src     string
 }
 
-func parseGuarded(rest, pkg string) (*GuardSpec, error) {
+func parseGuarded(rest, pkg string, released bool) (*GuardSpec, error) {
 	c := &Clause{}
 	rest = parseTags(rest, c)
 	g := &GuardSpec{Props: c.Props, Holders: map[string]bool{}, Except: map[string]bool{}, Src: rest}
@@ -50,6 +53,27 @@ func parseGuarded(rest, pkg string) (*GuardSpec, error) {
 			}
 		}
 		rest = rest[:k]
+	}
+	if k := strings.Index(rest, " nonzero-for "); k >= 0 {
+		// unlocked F by T.lock nonzero-for G, H
+		g.NonZero = map[string]bool{}
+		for _, h := range strings.Split(rest[k+len(" nonzero-for "):], ",") {
+			if h = strings.TrimSpace(h); h != "" {
+				g.NonZero[qualify(h, pkg)] = true
+			}
+		}
+		parts := strings.SplitN(rest[:k], " by ", 2)
+		if len(parts) != 2 {
+			return nil, fmt.Errorf("unlocked [Cnn] F by T.lock nonzero-for G, ...")
+		}
+		g.Observer = qualify(strings.TrimSpace(parts[0]), pkg)
+		g.Lock = qualify(strings.TrimSpace(parts[1]), pkg)
+		return g, nil
+	}
+	if released {
+		g.Released = true
+		g.Lock = qualify(strings.TrimSpace(rest), pkg)
+		return g, nil
 	}
 	parts := strings.SplitN(rest, " by ", 2)
 	if len(parts) != 2 {
@@ -72,41 +96,197 @@ func fieldKeyOf(fa *ssa.FieldAddr) string {
 	return typeKey(owner) + "." + s.Field(fa.Field).Name()
 }
 
+// lockOpOf: is this instruction a Lock/Unlock (or a deferred Unlock) of the lock field `lock`?
+func lockOpOf(in ssa.Instruction, lock string) (string, bool) {
+	ci, ok := in.(ssa.CallInstruction)
+	if !ok {
+		return "", false
+	}
+	cc := ci.Common()
+	fn, ok := cc.Value.(*ssa.Function)
+	if !ok || len(cc.Args) == 0 {
+		return "", false
+	}
+	n := fn.Name()
+	if n != "Lock" && n != "Unlock" && n != "RLock" && n != "RUnlock" {
+		return "", false
+	}
+	// receiver: the lock field itself (value mutex) or a load of it (pointer mutex)
+	recv := cc.Args[0]
+	if u, ok := recv.(*ssa.UnOp); ok && u.Op == token.MUL {
+		recv = u.X
+	}
+	fa, ok := recv.(*ssa.FieldAddr)
+	if !ok || fieldKeyOf(fa) != lock {
+		return "", false
+	}
+	if _, isDefer := in.(*ssa.Defer); isDefer {
+		if n == "Unlock" || n == "RUnlock" {
+			return "defer", true
+		}
+		return "", false
+	}
+	return n, true
+}
+
+// releaseCheck (clause `released T.lock`): on every path of f, a Lock/RLock of the lock field is followed by an
+// Unlock/RUnlock before the function returns, or a deferred Unlock has been registered on every path to that return.
+// The analysis keeps the set of possible (held, deferred-release-registered) pairs per block; a return reachable with
+// the lock held and no deferred release registered is reported. Panics are not paths (a deferred release covers them, an explicit one does not - the
+// clause does not ask for that). Returns a description of the first offending return ("" if none).
+func (v *Verifier) releaseCheck(f *ssa.Function, g *GuardSpec) string {
+	if len(f.Blocks) == 0 {
+		return ""
+	}
+	// a set of (held, deferred) pairs per block entry, as a bit mask over the four combinations (bit = held + 2*deferred):
+	// keeping the pairs apart keeps `if !force { Lock(); defer Unlock() }` exact
+	in := map[*ssa.BasicBlock]uint8{f.Blocks[0]: 1 << 0}
+	work := []*ssa.BasicBlock{f.Blocks[0]}
+	problem := ""
+	apply := func(m uint8, fn func(held, deferred bool) (bool, bool)) uint8 {
+		var out uint8
+		for i := 0; i < 4; i++ {
+			if m&(1<<i) != 0 {
+				h, d := fn(i&1 != 0, i&2 != 0)
+				k := 0
+				if h {
+					k |= 1
+				}
+				if d {
+					k |= 2
+				}
+				out |= 1 << k
+			}
+		}
+		return out
+	}
+	for len(work) > 0 {
+		b := work[0]
+		work = work[1:]
+		s := in[b]
+		for _, ins := range b.Instrs {
+			if op, ok := lockOpOf(ins, g.Lock); ok {
+				switch op {
+				case "Lock", "RLock":
+					s = apply(s, func(h, d bool) (bool, bool) { return true, d })
+				case "Unlock", "RUnlock":
+					s = apply(s, func(h, d bool) (bool, bool) { return false, d })
+				case "defer":
+					s = apply(s, func(h, d bool) (bool, bool) { return h, true })
+				}
+				continue
+			}
+			if r, ok := ins.(*ssa.Return); ok && s&(1<<1) != 0 && problem == "" {
+				pos := v.fset.Position(r.Pos())
+				problem = fmt.Sprintf("%s can return still holding %s (%s:%d)", v.fnKey(f), g.Lock, trimRepo(pos.Filename, v.repo), pos.Line)
+			}
+		}
+		for _, nb := range b.Succs {
+			if n := in[nb] | s; n != in[nb] {
+				in[nb] = n
+				work = append(work, nb)
+			}
+		}
+	}
+	return problem
+}
+
+// observeCheck (clause `unlocked F by T.lock nonzero-for G, H`): F reads state guarded by the lock without taking it
+// (a one-slot mailbox mirror of a counter), so what it returns may be out of date by the time the caller holds the lock.
+// The clause states the rely/guarantee argument of the code as a syntactic rule: a function that takes the lock may call
+// F only if it is listed, and a listed function may use the reading only as `F() <op> 0` deciding a branch whose
+// "reading was zero" side never takes the lock - i.e. the only conclusion acted on under the lock is "not zero", which
+// the listed functions (the single consumer) can rely on because every other party only increases the counter.
+// Functions that never take the lock may call F freely (pure observers).
+func (v *Verifier) observeCheck(f *ssa.Function, g *GuardSpec) string {
+	takesLock := false
+	var calls []*ssa.Call
+	for _, b := range f.Blocks {
+		for _, in := range b.Instrs {
+			if op, ok := lockOpOf(in, g.Lock); ok && (op == "Lock" || op == "RLock") {
+				takesLock = true
+			}
+			if c, ok := in.(*ssa.Call); ok {
+				if fn, ok := c.Call.Value.(*ssa.Function); ok && v.fnKey(fn) == g.Observer {
+					calls = append(calls, c)
+				}
+			}
+		}
+	}
+	if !takesLock || len(calls) == 0 {
+		return ""
+	}
+	where := func(p token.Pos) string {
+		pos := v.fset.Position(p)
+		return fmt.Sprintf("%s:%d", trimRepo(pos.Filename, v.repo), pos.Line)
+	}
+	if !g.NonZero[v.fnKey(f)] {
+		return fmt.Sprintf("%s takes %s and also reads %s without it (%s): a reading taken before the lock may be out of date under it", v.fnKey(f), g.Lock, shortName(g.Observer), where(calls[0].Pos()))
+	}
+	// does a path from block b reach a Lock of the lock?
+	reachesLock := func(b *ssa.BasicBlock) bool {
+		seen := map[*ssa.BasicBlock]bool{}
+		work := []*ssa.BasicBlock{b}
+		for len(work) > 0 {
+			x := work[0]
+			work = work[1:]
+			if seen[x] {
+				continue
+			}
+			seen[x] = true
+			for _, in := range x.Instrs {
+				if op, ok := lockOpOf(in, g.Lock); ok && (op == "Lock" || op == "RLock") {
+					return true
+				}
+			}
+			work = append(work, x.Succs...)
+		}
+		return false
+	}
+	isZero := func(x ssa.Value) bool {
+		c, ok := x.(*ssa.Const)
+		return ok && c.Value != nil && c.Value.ExactString() == "0"
+	}
+	for _, c := range calls {
+		for _, r := range *c.Referrers() {
+			bo, ok := r.(*ssa.BinOp)
+			if !ok || !(isZero(bo.X) || isZero(bo.Y)) {
+				return fmt.Sprintf("%s uses the reading of %s other than by comparing it with zero (%s)", v.fnKey(f), shortName(g.Observer), where(r.Pos()))
+			}
+			// which successor of the branch is the "reading was zero" side?
+			zeroOnTrue := map[token.Token]bool{token.EQL: true, token.LEQ: isZero(bo.Y), token.GEQ: isZero(bo.X)}
+			zeroOnFalse := map[token.Token]bool{token.NEQ: true, token.GTR: isZero(bo.Y), token.LSS: isZero(bo.X)}
+			for _, u := range *bo.Referrers() {
+				br, ok := u.(*ssa.If)
+				if !ok {
+					return fmt.Sprintf("%s keeps the outcome of a comparison on the reading of %s (%s)", v.fnKey(f), shortName(g.Observer), where(u.Pos()))
+				}
+				blk := br.Block()
+				var zeroSide *ssa.BasicBlock
+				switch {
+				case zeroOnTrue[bo.Op]:
+					zeroSide = blk.Succs[0]
+				case zeroOnFalse[bo.Op]:
+					zeroSide = blk.Succs[1]
+				default:
+					return fmt.Sprintf("%s compares the reading of %s in a way that does not single out zero (%s)", v.fnKey(f), shortName(g.Observer), where(bo.Pos()))
+				}
+				if reachesLock(zeroSide) {
+					return fmt.Sprintf("%s takes %s after reading zero from %s (%s): \"empty\" is not stable, another party may have added since", v.fnKey(f), g.Lock, shortName(g.Observer), where(bo.Pos()))
+				}
+			}
+		}
+	}
+	return ""
+}
+
 // guardCheck returns a description of the first unguarded access in f ("" if none)
 func (v *Verifier) guardCheck(f *ssa.Function, g *GuardSpec) string {
 	guarded := map[string]bool{}
 	for _, fld := range g.Fields {
 		guarded[fld] = true
 	}
-	// is this call a Lock/Unlock of the guard's lock field?
-	lockOp := func(in ssa.Instruction) (string, bool) {
-		ci, ok := in.(ssa.CallInstruction)
-		if !ok {
-			return "", false
-		}
-		cc := ci.Common()
-		fn, ok := cc.Value.(*ssa.Function)
-		if !ok || len(cc.Args) == 0 {
-			return "", false
-		}
-		n := fn.Name()
-		if n != "Lock" && n != "Unlock" && n != "RLock" && n != "RUnlock" {
-			return "", false
-		}
-		// receiver: the lock field itself (value mutex) or a load of it (pointer mutex)
-		recv := cc.Args[0]
-		if u, ok := recv.(*ssa.UnOp); ok && u.Op == token.MUL {
-			recv = u.X
-		}
-		fa, ok := recv.(*ssa.FieldAddr)
-		if !ok || fieldKeyOf(fa) != g.Lock {
-			return "", false
-		}
-		if _, isDefer := in.(*ssa.Defer); isDefer {
-			return "defer", true
-		}
-		return n, true
-	}
+	lockOp := func(in ssa.Instruction) (string, bool) { return lockOpOf(in, g.Lock) }
 	// base allocated in this function (possibly held in a local variable): a constructor filling in its result
 	seen := map[ssa.Value]bool{}
 	var isNew func(x ssa.Value) bool
@@ -229,7 +409,14 @@ func (v *Verifier) guardViolations(g *GuardSpec) []string {
 		if g.Except[k] {
 			continue
 		}
-		if why := v.guardCheck(f, g); why != "" {
+		check := v.guardCheck
+		if g.Released {
+			check = v.releaseCheck
+		}
+		if g.Observer != "" {
+			check = v.observeCheck
+		}
+		if why := check(f, g); why != "" {
 			out = append(out, why)
 		}
 	}
